@@ -1,18 +1,28 @@
 import GaeaVerif.Sexp
 import GaeaVerif.Model.FastPathC06
+import GaeaVerif.Model.TabRefC06
 /-
   Driver for C06.  Request:
-    m (fp (rules (DB TABLE KIND)…) (phy (DB PHY)…) (db DB) (st TYPE) (sql SQL) (full KIND) (tabs (SCHEMA NAME)…))
+    m (fp (rules (DB TABLE KIND)…) (phy (DB PHY)…) (db DB) (st TYPE) (sql SQL) (full KIND) (tabs (SCHEMA NAME)…) [(segs SEG…)])
       rules: the shard rules of the namespace as configured (hex texts; KIND hash|global|linked…)
       phy:   Namespace.GetPhysicalDBs()
       db:    session database, TYPE parser.Preview(SQL)
       full:  what the parser-based analysis (plan.BuildPlan) makes of the statement:
              unshard | shard | shard-err | nodb | parse-err | other
       tabs:  the TableName nodes the parser reports, in visiting order, as written
-    answer ((st TYPE) (tok TOKEN…) (pre U DB | pre N) (full KIND) (asm t) (chk nodb|shard|unshard))
+      segs:  (optional) the statement as a list of segments of the grammar of
+             Model/TabRefC06.lean: (t TEXT) free text, (v t|f DIGITS) the opening of an
+             executable comment `/*!` + optional M + version digits, (r Q NAME) a table
+             reference without schema, (rs Q SCHEMA GAP Q NAME) one with a schema;
+             Q = b (bare) | q (back-quoted); NAME/SCHEMA are the names as the parser reports
+             them.  `renderStmt` of the segments must be SQL and `wfStmt` must hold
+             (otherwise the answer is bad-grammar-…).
+    answer ((st TYPE) (tok TOKEN…) (pre U DB | pre N) (full KIND) (asm t|f) (chk nodb|shard|unshard) (gram t|-))
       chk: what plan.Checker finds on these tables (`checkerScan`)
-      asm: the harness reports whether every table name the parser saw is a word of the
-      text (the assumption parser_tables_are_words); the model always answers t
+      asm: the guard sees every table name the parser reported (`NameSeen` of Props/C06 for
+           every entry of tabs); the harness computes it with the real word scan
+      gram: with segs and a statement that parses (full is not parse-err / panic): the parser reports exactly the
+           references of the grammar (the harness compares; the model expects t)
     s <request> <implementation output>   property oracle
 -/
 namespace GaeaVerif.Drv.C06
@@ -25,6 +35,7 @@ structure Input where
   sql : Str
   full : String
   tabs : List (Str × Str)
+  segs : Option (List Seg)
 
 def pairs? (xs : List Sexp) : Option (List (Str × Str)) :=
   xs.mapM fun e =>
@@ -35,18 +46,56 @@ def pairs? (xs : List Sexp) : Option (List (Str × Str)) :=
       | _, _ => none
     | _ => none
 
+def quote? (e : Sexp) : Option Quote :=
+  match e with
+  | .atom "b" => some .bare
+  | .atom "q" => some .backquote
+  | _ => none
+
+def seg? (e : Sexp) : Option Seg :=
+  match e with
+  | .list [.atom "t", s] => s.asText?.map fun s => .text s.toList
+  | .list [.atom "v", .atom m, ds] =>
+    match ds.asText? with
+    | some ds => if m == "t" then some (.version true ds.toList) else if m == "f" then some (.version false ds.toList) else none
+    | none => none
+  | .list [.atom "r", q, n] =>
+    match quote? q, n.asText? with
+    | some q, some n => some (.ref ⟨none, [], ⟨q, n.toList⟩⟩)
+    | _, _ => none
+  | .list [.atom "rs", sq, sn, gap, q, n] =>
+    match quote? sq, sn.asText?, gap.asText?, quote? q, n.asText? with
+    | some sq, some sn, some gap, some q, some n => some (.ref ⟨some ⟨sq, sn.toList⟩, gap.toList, ⟨q, n.toList⟩⟩)
+    | _, _, _, _, _ => none
+  | _ => none
+
+def parseCore (rules phy : List Sexp) (db st sql : Sexp) (full : String) (tabs : List Sexp)
+    (segs : Option (List Seg)) : Option Input :=
+  match pairs? rules, pairs? phy, db.asText?, st.asNat?, sql.asText?, pairs? tabs with
+  | some rules, some phy, some db, some st, some sql, some tabs =>
+    -- NewRouter keys a rule by the configured database and the lower-cased table name
+    some { cfg := { rules := rules.map (fun r => (r.1, toLower r.2)), phyDBs := phy },
+           db := db.toList, stmtType := st, sql := sql.toList, full := full, tabs := tabs, segs := segs }
+  | _, _, _, _, _, _ => none
+
 def parseInput (req : Sexp) : Option Input :=
   match req with
   | .list [.atom "fp", .list (.atom "rules" :: rules), .list (.atom "phy" :: phy), .list [.atom "db", db],
            .list [.atom "st", st], .list [.atom "sql", sql], .list [.atom "full", .atom full],
            .list (.atom "tabs" :: tabs)] =>
-    match pairs? rules, pairs? phy, db.asText?, st.asNat?, sql.asText?, pairs? tabs with
-    | some rules, some phy, some db, some st, some sql, some tabs =>
-      -- NewRouter keys a rule by the configured database and the lower-cased table name
-      some { cfg := { rules := rules.map (fun r => (r.1, toLower r.2)), phyDBs := phy },
-             db := db.toList, stmtType := st, sql := sql.toList, full := full, tabs := tabs }
-    | _, _, _, _, _, _ => none
+    parseCore rules phy db st sql full tabs none
+  | .list [.atom "fp", .list (.atom "rules" :: rules), .list (.atom "phy" :: phy), .list [.atom "db", db],
+           .list [.atom "st", st], .list [.atom "sql", sql], .list [.atom "full", .atom full],
+           .list (.atom "tabs" :: tabs), .list (.atom "segs" :: segs)] =>
+    match segs.mapM seg? with
+    | some segs => parseCore rules phy db st sql full tabs (some segs)
+    | none => none
   | _ => none
+
+/-- `NameSeen` of Props/C06 for every table the parser reported. -/
+def allSeen (sql : Str) (tabs : List (Str × Str)) : Bool :=
+  let words := statementWords sql
+  tabs.all fun t => isMentioned (toLower t.2) words
 
 def strHex (s : Str) : String := textToHex (String.ofList s)
 
@@ -54,6 +103,16 @@ def model (req : Sexp) : String :=
   match parseInput req with
   | none => "bad"
   | some i =>
+    let gramBad : Option String :=
+      match i.segs with
+      | none => none
+      | some segs =>
+        if renderStmt segs != i.sql then some "bad-grammar-render"
+        else if !wfStmt segs then some "bad-grammar-wf"
+        else none
+    match gramBad with
+    | some b => b
+    | none =>
     match tokenize i.sql, preBuildUnshardPlan i.cfg i.db i.stmtType i.sql with
     | .ok tokens, .ok pre =>
       let toks := " ".intercalate ("tok" :: tokens.map strHex)
@@ -64,7 +123,9 @@ def model (req : Sexp) : String :=
         | .noDB => "nodb"
         | .shard => "shard"
         | .unshard => "unshard"
-      s!"((st {i.stmtType}) ({toks}) {p} (full {i.full}) (asm t) (chk {chk}))"
+      let asm := if allSeen i.sql i.tabs then "t" else "f"
+      let gram := if i.segs.isSome && i.full != "parse-err" && i.full != "panic" then "t" else "-"
+      s!"((st {i.stmtType}) ({toks}) {p} (full {i.full}) (asm {asm}) (chk {chk}) (gram {gram}))"
     | _, _ => "panic"
 
 /-- The property on an observed output: a statement the full analysis plans as
@@ -76,8 +137,14 @@ def oracle (req out : Sexp) : String :=
     match out with
     | .atom "panic" => "viol tokenize-panic"
     | .list [.list [.atom "st", _], .list (.atom "tok" :: _), .list (.atom "pre" :: .atom d :: _),
-             .list [.atom "full", .atom full], .list [.atom "asm", _], .list [.atom "chk", _]] =>
-      if d == "U" && (full == "shard" || full == "shard-err") then "viol fastpath-bypasses-sharding" else "ok"
+             .list [.atom "full", .atom full], .list [.atom "asm", .atom asm], .list [.atom "chk", _],
+             .list [.atom "gram", .atom gram]] =>
+      if d == "U" && (full == "shard" || full == "shard-err") then "viol fastpath-bypasses-sharding"
+      -- the bridge from the guard to the parser: a table the parser reports that the word
+      -- scan cannot see, or a statement of the grammar the parser reads differently
+      else if asm != "t" then "viol guard-misses-parser-table"
+      else if gram == "f" then "viol parser-disagrees-with-grammar"
+      else "ok"
     | _ => "viol unparsable"
 
 def handle (args : List Sexp) : String :=
